@@ -155,14 +155,14 @@ match gen_start clk self__state self__started_at self__stopped_at self__splits s
 match r__1 with Exn e__2 => ((self__state, self__started_at, self__stopped_at, self__splits, self__duration, self_tick), Exn e__2)
 | Ok v3 =>
 ((self__state, self__started_at, self__stopped_at, self__splits, self__duration, self_tick), Ok tt) end end.
-Definition gen_exit (clk : nat -> Z) (self__state : ostate) (self__started_at : option Z) (self__stopped_at : option Z) (self__splits : list split) (self__duration : option Z) (self_tick : nat) : gst * res (unit) :=
+Definition gen_exit (clk : nat -> Z) (self__state : ostate) (self__started_at : option Z) (self__stopped_at : option Z) (self__splits : list split) (self__duration : option Z) (self_tick : nat) (type : option unit) (value : option unit) (traceback : option unit) : gst * res (option bool) :=
 match gen_stop clk self__state self__started_at self__stopped_at self__splits self__duration self_tick with
 | ((self__state, self__started_at, self__stopped_at, self__splits, self__duration, self_tick), r__1) =>
 match r__1 with Exn e__2 => match e__2 with RuntimeError => (
-((self__state, self__started_at, self__stopped_at, self__splits, self__duration, self_tick), Ok tt))
+((self__state, self__started_at, self__stopped_at, self__splits, self__duration, self_tick), Ok None))
 | _ => ((self__state, self__started_at, self__stopped_at, self__splits, self__duration, self_tick), Exn e__2) end
 | Ok v3 =>
-((self__state, self__started_at, self__stopped_at, self__splits, self__duration, self_tick), Ok tt) end end.
+((self__state, self__started_at, self__stopped_at, self__splits, self__duration, self_tick), Ok None) end end.
 Definition gen_init (clk : nat -> Z) (self__state : ostate) (self__started_at : option Z) (self__stopped_at : option Z) (self__splits : list split) (self__duration : option Z) (self_tick : nat) (duration : option Z) : gst * res (unit) :=
 match duration with Some some1 => (
 if (some1 <? (0)) then (
